@@ -26,4 +26,23 @@ def jCall (gs : List Nat) (a : MV) : MV :=
 def jMag2 (a : MV) : Rat := (C.gp (C.rev a) a).getD 0 0
 
 end Ctx
+
+/-- the overloads of `clifford/numba/_multivector.py` that re-use a Python method body or delegate to a layout function
+(`kind of overload, attribute / method name, what it returns`), sorted: jitted `mv.normal()`, `abs(mv)`, `mv.even` … run the very
+Python bodies the interpreter runs (numba compiles them), `mag2` is `(~self * self).value[0]`, `gradeInvol` and the inverses call
+the layout's own functions.  `translate/numba2lean.py` reads the same table from the current source. -/
+def numbaReuseTable : List (String × String × String) :=
+  [("overload", "abs", "MultiVector.__abs__"),
+   ("overload_attribute", "even", "MultiVector.even.fget"),
+   ("overload_attribute", "odd", "MultiVector.odd.fget"),
+   ("overload_method", "anticommutator", "MultiVector.anticommutator"),
+   ("overload_method", "commutator", "MultiVector.commutator"),
+   ("overload_method", "conjugate", "MultiVector.conjugate"),
+   ("overload_method", "gradeInvol", "layout._grade_invol(self)"),
+   ("overload_method", "hitzer_inverse", "layout._hitzer_inverse(self)"),
+   ("overload_method", "leftLaInv", "self.layout.MultiVector(layout.inv_func(self.value))"),
+   ("overload_method", "mag2", "(~self * self).value[0]"),
+   ("overload_method", "normal", "MultiVector.normal"),
+   ("overload_method", "shirokov_inverse", "layout._shirokov_inverse(self)")]
+
 end Model
